@@ -237,7 +237,7 @@ type runResult struct {
 
 // expectation for the scenario's command.
 type expectation struct {
-	exit        int   // 0, 100, or -1 = operational (anything but 0 and 100)
+	exit        int // 0, 100, or -1 = operational (anything but 0 and 100)
 	annotations []Plant
 	stream      string // where annotations are printed: stdout | stderr
 	noAnnots    bool   // exit 100 without annotations (missing import, format diff)
@@ -508,7 +508,7 @@ func TestCLI(t *testing.T) {
 	r := evid.R()
 	base := t.TempDir()
 	n := 0
-	r.Check(t, r.Scale(120, 4000), 2, func(t *rapid.T) {
+	r.Check(t, r.Scale(240, 8000), 2, func(t *rapid.T) {
 		n++
 		c := genCLICase(t)
 		tmp := filepath.Join(base, fmt.Sprintf("case-%d", n))
